@@ -74,6 +74,12 @@ def units(tier):
     for K, dim in ((2, 2), (2, 3)) if q else ((2, 2), (2, 3), (3, 2)):
         us.append(Unit('C03/K/extrapolate-contract[K=%d,dim=%d]' % (K, dim), ST.u_extrapolate_contract,
                        dict(K=K, dim=dim, nfit=2), wall_s=90))
+    for X, fi in (('corr32', False), ('corr32', True), ('gen32', True)):
+        us.append(Unit('C03/S/pn_linesearch[X=%s,intercept=%s]' % (X, fi), ST.u_pn_linesearch, dict(X=X, fit_intercept=fi),
+                       wall_s=120, timeout_ms=8000, patched=True))
+    for fi in (False, True):
+        us.append(Unit('C03/S/group_pn_linesearch[intercept=%s]' % fi, ST.u_pn_linesearch,
+                       dict(X='corr32', fit_intercept=fi, group=True), wall_s=120, timeout_ms=8000, patched=True))
     return us
 
 
